@@ -78,6 +78,12 @@ type fparams struct {
 	Uniform   bool   `json:"uniform"` // all values present and of fixed size (equal module sizes)
 	AllKeys   bool   `json:"all_keys,omitempty"` // every leaf column has its own key
 	RowSeed   int64  `json:"row_seed,omitempty"` // the rows derive from this seed (0: Seed); the keys always derive from Seed
+	// Route: how the options reach the writer ("": NewGenericWriter with every option given directly), see routes.go
+	Route string `json:"route,omitempty"`
+	// Leaves: the leaf columns of the schema when it is not the one of rowP (sized.go)
+	Leaves []string `json:"leaves,omitempty"`
+	// Sized: a file of rowZ rows with one long module (sized.go)
+	Sized *zparams `json:"sized,omitempty"`
 	// Hist: this file is file Hist.Index of a history of files that all come
 	// from ONE *EncryptionConfig value and the same writer options
 	Hist *history `json:"hist,omitempty"`
@@ -136,10 +142,17 @@ func (p *fparams) keyMode() string {
 	return "footer-only"
 }
 
+func (p *fparams) leaves() []string {
+	if p.Leaves != nil {
+		return p.Leaves
+	}
+	return leafPaths
+}
+
 func (p *fparams) ownKey(name string) bool {
-	for _, l := range leafPaths {
+	for _, l := range p.leaves() {
 		if l == name {
-			return p.AllKeys || p.ColKeys && (name == "name" || name == "tags.list.element")
+			return p.AllKeys || p.ColKeys && (name == "name" || name == "tags.list.element" || name == "blob")
 		}
 	}
 	return false
@@ -161,7 +174,7 @@ func (p *fparams) key(name string) []byte {
 
 func (p *fparams) encryption() *parquet.EncryptionConfig {
 	cfg := &parquet.EncryptionConfig{FooterKey: p.key("footer"), EncryptedFooter: p.EncFooter}
-	for _, l := range leafPaths {
+	for _, l := range p.leaves() {
 		if p.ownKey(l) {
 			if cfg.ColumnKeys == nil {
 				cfg.ColumnKeys = map[string][]byte{}
@@ -234,6 +247,10 @@ func (p *fparams) rows() []rowP {
 			o.Tags = append(o.Tags, marker(r, 'T'))
 		}
 	}
+	if p.ctor() == 'S' {
+		// the file of a sorting writer holds the rows by id
+		sortByID(out)
+	}
 	return out
 }
 
@@ -249,7 +266,12 @@ func codecOf(name string) compress.Codec {
 	return &parquet.Uncompressed
 }
 
-func (p *fparams) options(cfg *parquet.EncryptionConfig) []parquet.WriterOption {
+// others: every option but the encryption (sorting: those of a sorting writer,
+// which orders the rows by id and cuts the row groups itself).
+func (p *fparams) others(sorting bool) []parquet.WriterOption {
+	if p.Sized != nil {
+		return p.sizedOptions()
+	}
 	opts := []parquet.WriterOption{
 		parquet.DataPageVersion(p.V), parquet.Compression(codecOf(p.Codec)),
 		parquet.PageBufferSize(1), parquet.DataPageStatistics(true),
@@ -258,15 +280,18 @@ func (p *fparams) options(cfg *parquet.EncryptionConfig) []parquet.WriterOption 
 		opts = append(opts, parquet.BloomFilters(parquet.SplitBlockFilter(10, "id"), parquet.SplitBlockFilter(10, "name"),
 			parquet.SplitBlockFilter(10, "tags", "list", "element")))
 	}
-	if cfg != nil {
-		opts = append(opts, parquet.WithEncryption(cfg))
+	if sorting {
+		opts = append(opts, parquet.SortingWriterConfig(parquet.SortingColumns(parquet.Ascending("id"))))
+		if p.RGRows > 0 {
+			opts = append(opts, parquet.MaxRowsPerRowGroup(int64(p.RGRows)))
+		}
 	}
 	return opts
 }
 
 // feedT writes the rows of one file (pages of p.PageRows rows, row groups of
 // p.RGRows rows) and closes the file.
-func feedT[T any](w *parquet.GenericWriter[T], p *fparams, rows []T) error {
+func feedT[T any](w rowWriter[T], p *fparams, rows []T) error {
 	pr := p.PageRows
 	if pr <= 0 || pr > 64 {
 		pr = 64
@@ -301,8 +326,25 @@ func writeT[T any](p *fparams, rows []T, encrypted bool) ([]byte, error) {
 	if encrypted {
 		cfg = p.encryption()
 	}
-	w := parquet.NewGenericWriter[T](&buf, p.options(cfg)...)
-	if err := feedT(w, p, rows); err != nil {
+	if encrypted && p.ctor() == 'F' {
+		_, opts, err := p.writerOptions(cfg)
+		if err != nil {
+			return nil, err
+		}
+		if err := parquet.Write[T](&buf, rows, opts...); err != nil {
+			return nil, err
+		}
+		return buf.Bytes(), nil
+	}
+	w, err := newWriterT[T](p, &buf, cfg)
+	if err != nil {
+		return nil, err
+	}
+	in := rows
+	if encrypted {
+		in = inputOrder(p, rows)
+	}
+	if err := feedT(w, p, in); err != nil {
 		return nil, err
 	}
 	return buf.Bytes(), nil
@@ -315,14 +357,17 @@ func writeHistoryT[T any](p *fparams, conv func([]rowP) []T) ([][]byte, error) {
 	h := p.Hist
 	cfg := p.encryption()
 	bufs := make([]*bytes.Buffer, len(h.Ops))
-	writers := make([]*parquet.GenericWriter[T], len(h.Ops))
+	writers := make([]rowWriter[T], len(h.Ops))
+	var err error
 	for j := range bufs {
 		bufs[j] = new(bytes.Buffer)
 		if h.Eager && h.Ops[j] == 'n' {
-			writers[j] = parquet.NewGenericWriter[T](bufs[j], p.options(cfg)...)
+			if writers[j], err = newWriterT[T](p, bufs[j], cfg); err != nil {
+				return nil, err
+			}
 		}
 	}
-	var w *parquet.GenericWriter[T]
+	var w rowWriter[T]
 	out := make([][]byte, len(h.Ops))
 	for j := range bufs {
 		switch {
@@ -331,10 +376,12 @@ func writeHistoryT[T any](p *fparams, conv func([]rowP) []T) ([][]byte, error) {
 		case writers[j] != nil:
 			w = writers[j]
 		default:
-			w = parquet.NewGenericWriter[T](bufs[j], p.options(cfg)...)
+			if w, err = newWriterT[T](p, bufs[j], cfg); err != nil {
+				return nil, err
+			}
 		}
 		q := p.sibling(j)
-		if err := feedT(w, q, conv(q.rows())); err != nil {
+		if err := feedT(w, q, inputOrder(q, conv(q.rows()))); err != nil {
 			return nil, fmt.Errorf("file %d of the history: %w", j, err)
 		}
 		out[j] = bufs[j].Bytes()
@@ -673,10 +720,10 @@ func (e *cryptoMDError) Error() string { return e.what }
 // checkCryptoMD: a column with its own key carries ENCRYPTION_WITH_COLUMN_KEY
 // naming its own path, any other column ENCRYPTION_WITH_FOOTER_KEY.
 func checkCryptoMD(p *fparams, rg, col int, ch *format.ColumnChunk) error {
-	if col >= len(leafPaths) {
-		return &cryptoMDError{fmt.Sprintf("rg %d: column chunk %d of a schema of %d leaves", rg, col, len(leafPaths))}
+	if col >= len(p.leaves()) {
+		return &cryptoMDError{fmt.Sprintf("rg %d: column chunk %d of a schema of %d leaves", rg, col, len(p.leaves()))}
 	}
-	path := leafPaths[col]
+	path := p.leaves()[col]
 	switch cm := ch.CryptoMetadata.Value.(type) {
 	case *format.EncryptionWithColumnKey:
 		if got := strings.Join(cm.PathInSchema, "."); !p.ownKey(path) || got != path {
@@ -1167,6 +1214,16 @@ func plaintextScan(c *core.Ctx, p *fparams, rows []rowP, data []byte, w *walked)
 			}
 		}
 	}
+	if !clearMetadataCheck(c, p, w) {
+		ok = false
+	}
+	return ok
+}
+
+// clearMetadataCheck: the clear footer of plaintext-footer mode holds no
+// column metadata (values counts, min/max, offsets) of an encrypted column.
+func clearMetadataCheck(c *core.Ctx, p *fparams, w *walked) bool {
+	ok := true
 	if w != nil && !p.EncFooter {
 		for i := range w.ClearMD {
 			for j := range w.ClearMD[i] {
@@ -1181,6 +1238,92 @@ func plaintextScan(c *core.Ctx, p *fparams, rows []rowP, data []byte, w *walked)
 		}
 	}
 	return ok
+}
+
+// keylessRead: a reader that holds NO key opens the bytes (a plaintext footer
+// may open) and reads what it can, rows and the first page of every column
+// chunk: no value written may come back.
+func keylessRead(c *core.Ctx, p *fparams, rows []rowP, data []byte) bool {
+	ints := map[int64]string{}
+	strs := map[string]string{}
+	for _, r := range rows {
+		ints[r.ID], ints[r.Val], strs[r.Name] = "id", "val", "name"
+		if r.Opt != nil {
+			strs[*r.Opt] = "opt"
+		}
+		for _, t := range r.Tags {
+			strs[t] = "tags"
+		}
+	}
+	o := guard(20*time.Second, func(o *outcome) {
+		f, err := parquet.OpenFile(bytes.NewReader(data), int64(len(data)))
+		if err != nil {
+			return
+		}
+		got, _ := p.readRows(f, 0)
+		for i, r := range got {
+			col := ""
+			switch {
+			case ints[r.ID] != "":
+				col = ints[r.ID]
+			case ints[r.Val] != "":
+				col = ints[r.Val]
+			case strs[r.Name] != "":
+				col = strs[r.Name]
+			case r.Opt != nil && strs[*r.Opt] != "":
+				col = strs[*r.Opt]
+			}
+			for _, t := range r.Tags {
+				if strs[t] != "" {
+					col = strs[t]
+				}
+			}
+			if col != "" {
+				o.Err = fmt.Errorf("row %d of %d rows read without any key holds a value written to column %q", i, len(got), col)
+				return
+			}
+		}
+		for gi, rg := range f.RowGroups() {
+			for ci, cc := range rg.ColumnChunks() {
+				pages := cc.Pages()
+				pg, err := pages.ReadPage()
+				if err == nil && pg != nil {
+					vals := make([]parquet.Value, pg.NumValues())
+					m, _ := pg.Values().ReadValues(vals)
+					for _, v := range vals[:m] {
+						col := ""
+						switch v.Kind() {
+						case parquet.Int64:
+							col = ints[v.Int64()]
+						case parquet.ByteArray:
+							col = strs[string(v.ByteArray())]
+						}
+						if col != "" {
+							o.Err = fmt.Errorf("ReadPage on row group %d column %d without any key returned a value written to column %q", gi, ci, col)
+							break
+						}
+					}
+					parquet.Release(pg)
+				}
+				pages.Close()
+				if o.Err != nil {
+					return
+				}
+			}
+		}
+	})
+	c.Res.Evaluations++
+	switch {
+	case o.Err != nil:
+		c.Violation("readable-without-keys", fmt.Sprintf("file written with an EncryptionConfig (options %s): %v; file %s", p.route(), o.Err, p),
+			map[string]any{"kind": "file", "params": p})
+		return false
+	case o.Panic != "" || o.Hung:
+		c.Violation("keyless-read-panic", fmt.Sprintf("reading an encrypted file without keys: panic=%q hung=%v; file %s", o.Panic, o.Hung, p),
+			map[string]any{"kind": "file", "params": p})
+		return false
+	}
+	return true
 }
 
 // ---------------------------------------------------------------------------
@@ -1201,6 +1344,14 @@ func genParams(c *core.Ctx, i int) *fparams {
 	}
 	if r.Intn(2) == 0 {
 		p.FileID = 1 + r.Int63n(1<<40)
+	}
+	// how the options reach the writer: given directly to NewGenericWriter in
+	// one file of three, a random route otherwise
+	if i%3 != 0 {
+		p.Route = genRoute(c, r)
+		if p.Route == defaultRoute {
+			p.Route = ""
+		}
 	}
 	return p
 }
@@ -1225,6 +1376,10 @@ func genHistory(c *core.Ctx, i int) *fparams {
 	p.FileID = 0
 	if i%4 == 3 {
 		p.FileID = 1 + r.Int63n(1<<40)
+	}
+	if p.ctor() == 'F' {
+		// the function Write makes one file; its options through a sorting writer instead
+		p.Route = "S" + p.Route[1:]
 	}
 	h := &history{Ops: historyOps[(i/6)%len(historyOps)]}
 	h.Eager = strings.Count(h.Ops, "n") > 1 && r.Intn(3) == 0
@@ -1426,11 +1581,28 @@ func checkData(c *core.Ctx, p *fparams, rows []rowP, data []byte, record bool) (
 		return false, nil
 	}
 	if err != nil {
+		// the property predicates first, on the bytes as they are: nothing in
+		// clear, nothing for a reader without keys
+		if !plaintextScan(c, p, rows, data, nil) {
+			ok = false
+		}
+		if !keylessRead(c, p, rows, data) {
+			ok = false
+		}
+		// which configuration did the writer use, and which one does the model say?
+		if used := identifyConfig(p, data); used != 1 {
+			what := map[int]string{0: "none: the file carries no encryption algorithm", 2: "the decoy configuration named by an option that a later option overrides"}[used]
+			if what == "" {
+				what = "neither the configuration of the file nor the decoy opens the footer"
+			}
+			c.Mismatch("corr:C18.options", "options "+p.route()+" ("+err.Error()+")", what, fmt.Sprintf("configuration %d (E)", modelEffective(c, p.route())), p)
+			ok = false
+		}
 		// is the file readable by the implementation itself?
 		o := p.touchAll(data, &keyset{p: p}, rows)
 		if o.failed() || !reflect.DeepEqual(o.Rows, rows) {
 			fail("roundtrip", fmt.Sprintf("file cannot be parsed with the model's AADs (%v) and does not read back either (%v %s)", err, o.Err, o.Panic))
-		} else {
+		} else if ok {
 			c.Mismatch("corr:C18.aad", p.String(), "the file reads back but AES-GCM with the model's AADs fails: "+err.Error(), "every module opens under make_aad", p)
 			ok = false
 		}
@@ -1444,6 +1616,9 @@ func checkData(c *core.Ctx, p *fparams, rows []rowP, data []byte, record bool) (
 	}
 	// (c)
 	if !plaintextScan(c, p, rows, data, w) {
+		ok = false
+	}
+	if !keylessRead(c, p, rows, data) {
 		ok = false
 	}
 	if record && p.Codec == "uncompressed" && scanWitnessFiles < 8 {
@@ -1527,6 +1702,7 @@ func checkData(c *core.Ctx, p *fparams, rows []rowP, data []byte, record bool) (
 			bucket = fmt.Sprintf("history/%s#%d/footer=%s/keys=%s", p.Hist.Ops, p.Hist.Index, footer, p.keyMode())
 		}
 		c.Case(bucket, p.String(), len(w.Mods) > 8)
+		c.Case("route/"+routeShape(p.route())+"/footer="+footer, p.route()+"|"+p.String(), len(w.Mods) > 8)
 		c.Res.Evaluations += len(w.Mods) // modules opened with the model's AAD
 		c.Sample(map[string]any{"params": p, "modules": len(w.Mods), "layout": w.Layout})
 	}
@@ -2047,7 +2223,7 @@ func enumerate(c *core.Ctx, t *tfile, other *tfile, kind string, onlyType int, s
 	}
 	if want("wrong-key") && onlyType < 0 {
 		names := []string{"footer"}
-		for _, l := range leafPaths {
+		for _, l := range t.p.leaves() {
 			if t.p.ownKey(l) {
 				names = append(names, l)
 			}
@@ -2379,6 +2555,8 @@ func run(c *core.Ctx) {
 	c.Res.Rule = "files: rows of 5 columns (int64, string, optional string, list of strings, int64; every value a 60-bit random marker) written with random options " +
 		"(page version, codec, dictionary, row groups, rows per page, bloom filters, key length, AAD prefix, chosen or random file identifier) x {encrypted, signed plaintext footer} x {footer key only, own keys for two columns, own keys for all columns}; " +
 		"each file is parsed independently (own AES-GCM, AADs from the model; crypto_metadata of every column chunk = the variant and path the key assignment requires) module by module, read back (all rows, after SeekToRow with and without page index, page cursors with random histories, reader lacking a column key, reader holding the footer key only) and scanned for markers; " +
+		"the options reach the writer directly (NewGenericWriter, one file of three) or by a random route: constructor NewGenericWriter / NewWriter (rows one by one) / NewSortingWriter (rows handed over in another order, file ordered by id) / the function Write, and a random tree over {other options, WithEncryption(the configuration), 0-2 WithEncryption(decoy configuration)} with runs of options wrapped in NewWriterConfig(...) or in a WriterConfig value used as an option, kept when the model (effective_encryption) says the configuration of the file is the one used; every such file is checked like a directly configured one, plus a reader WITHOUT keys (rows, first page of every chunk) that must obtain no written value; " +
+		"sized modules: files of (int64, byte array) rows where one module -- a data page holding one long value (and the header carrying its statistics), a data page of many values under a large PageBufferSize, a dictionary page, a bloom filter bitset -- has a length field at 2^16, 2^20, 2^20+28 (each -1/0/+1, reached exactly by measuring a first file), random up to 3 MiB, and 2^24, x footer mode x page version x codec x key assignment: independent parse, length fields against the model (len_field, stream_accepts), round trip (all rows, without page index, after SeekToRow, bloom filters, ReadDictionary), scan for pieces of the values, reader without keys; " +
 		"histories: 2-3 files written from ONE EncryptionConfig value (new writers constructed from it one after another or all up front, writers reused through Reset: nr nn nrr nrn nnr nnn) x footer mode x key assignment, every file checked like a fresh file, " +
 		"and, when no identifier is configured, pairwise distinct aad_file_unique and rejection of modules of one file put at the same ordinals of another; " +
 		"tamper enumeration on small files with equal-sized modules: one bit of every byte (quick: every 9th byte and the 20 first/last) of every module, length field values, file truncation inside a module, " +
@@ -2425,6 +2603,7 @@ func run(c *core.Ctx) {
 		}
 	}
 	c.Note("histories: %d (%d files) in %.1fs", nHist, histFiles(nHist), time.Since(th).Seconds())
+	sizedModules(c)
 	t1 := time.Now()
 	scenarioBeginRowGroup(c)
 	scenarioStrippedSignature(c)
@@ -2501,6 +2680,14 @@ func shrinkFile(c *core.Ctx, p *fparams) *fparams {
 			func(q *fparams) bool { ok := q.Hist != nil; q.Hist = nil; return ok },
 			func(q *fparams) bool { ok := q.KeyLen != 16; q.KeyLen = 16; return ok },
 			func(q *fparams) bool { ok := q.PageRows < 64; q.PageRows = 64; return ok },
+			func(q *fparams) bool { ok := q.Route != ""; q.Route = ""; return ok },
+			func(q *fparams) bool { return simplerRoute(q, "G:C(O,E)") },
+			func(q *fparams) bool { return simplerRoute(q, "G:O,C(E)") },
+			func(q *fparams) bool { return simplerRoute(q, "G:O,L(E)") },
+			func(q *fparams) bool { return simplerRoute(q, "F:O,E") },
+			func(q *fparams) bool { return simplerRoute(q, "S:O,E") },
+			func(q *fparams) bool { return simplerRoute(q, "W:O,E") },
+			func(q *fparams) bool { return simplerRoute(q, string(q.ctor())+":O,E") },
 		} {
 			q := cur
 			if mod(&q) && fails(&q) {
@@ -2536,6 +2723,10 @@ func replay(c *core.Ctx, raw json.RawMessage) {
 		scenarioPageOrdinals(c)
 	case "stripped-signature":
 		scenarioStrippedSignature(c)
+	case "sized":
+		if r.Params != nil && r.Params.Sized != nil {
+			checkSized(c, r.Params, nil)
+		}
 	case "history":
 		if r.Params != nil && r.Params.Hist != nil {
 			checkHistory(c, r.Params, true)
